@@ -25,7 +25,7 @@ type NameOpts struct {
 
 var plainComps = []string{"a", "b", "c", "d", "x", "y", "f", "lib", "test", "src", "main.go", "README", "a1", "z9", "ab", "ad", "da", "d0", "Makefile", "util.c", "x_y", "v1.2"}
 var spaceComps = []string{"my file.txt", "a b", "d d", "y z", "new folder", "x  y", "a b c"}
-var parenComps = []string{"100%", "%s.txt", "Readme", "readme", "SRC", strings.Repeat("n", 120), strings.Repeat("w", 244), strings.Repeat("w", 250), strings.Repeat("w", 255), "a(b", "d(1)", "f(2).txt", "a+b", "c++", "x+y.z", "(x)", "lib-old", "d-old", "d.c", "test.c", "test-data", "lib.go", "a.b", "aXb", "d-a", "d-b"}
+var parenComps = []string{"a\\b", "back\\slash.txt", "100%", "%s.txt", "Readme", "readme", "SRC", strings.Repeat("n", 120), strings.Repeat("w", 244), strings.Repeat("w", 250), strings.Repeat("w", 255), "a(b", "d(1)", "f(2).txt", "a+b", "c++", "x+y.z", "(x)", "lib-old", "d-old", "d.c", "test.c", "test-data", "lib.go", "a.b", "aXb", "d-a", "d-b"}
 var metaComps = []string{"[x]", "a*b", "q?", "p|q", "^s", "e$", "{k}", "a{2}", "x[0]", "a.*", "(?i)a", "a)b", "d+"}
 var nonASCII = []string{"é", "日本", "ß", "café", "naïve.txt", "файл", "語"}
 
@@ -151,7 +151,7 @@ func ValidPath(p string) bool {
 		if c == "" || c == "." || c == ".." || strings.HasPrefix(c, "-") || strings.HasPrefix(c, ".goit") {
 			return false
 		}
-		if strings.ContainsAny(c, "\x00\n\r\t\\") || strings.HasSuffix(c, " ") || strings.HasPrefix(c, " ") {
+		if strings.ContainsAny(c, "\x00\n\r\t") || strings.HasSuffix(c, " ") || strings.HasPrefix(c, " ") {
 			return false
 		}
 	}
